@@ -1,4 +1,4 @@
-"""h5py model (assumed contract, conformance-tested natively): a file is a tree of groups holding datasets and
+"""h5py model (assumed contract, conformance-tested natively; group members are listed in NAME order, as h5py does): a file is a tree of groups holding datasets and
 attributes; a dataset written with data=A reads back ([:] / [k]) equal to A in shape and in every element;
 attributes round-trip scalars and strings.  File contents live in the ghost store ctx.ghost['h5'][<filename key>]
 so that a later open(...,'r') of the same filename term sees what was written."""
@@ -91,7 +91,14 @@ def _ga(i, v, name, node, fr):
         if name == "attrs":
             return v.attrs
         if name == "keys":
-            return BoundMethod(v, lambda interp, s, a, k, n, f: PyList(list(s.datasets.keys()) + list(s.groups.keys())))
+            # h5py iterates the members of a group in NAME order (links are not creation-ordered unless track_order is set)
+            return BoundMethod(v, lambda interp, s, a, k, n, f: PyList(sorted(list(s.datasets.keys()) + list(s.groups.keys()))))
+        if name in ("items", "values"):
+            def _members(interp, s, a, k, n, f, _nm=name):
+                names = sorted(list(s.datasets.keys()) + list(s.groups.keys()))
+                objs = [H5Dataset(s.datasets[x]) if x in s.datasets else s.groups[x] for x in names]
+                return PyList(list(zip(names, objs)) if _nm == "items" else objs)
+            return BoundMethod(v, _members)
     if isinstance(v, H5Attrs):
         if name == "create":
             def cr(interp, s, args, kw, n, f):
